@@ -88,6 +88,11 @@ func frameDeclaredMax(b []byte) (max uint64) {
 
 // traverseAll runs every traversal / lookup / marshal API on a result and reports a panic
 // or a non-terminating walk. API errors are fine (the tape may be nonsense).
+var (
+	travElements *simdjson.Elements
+	travNames    []string
+)
+
 func traverseAll(pj *simdjson.ParsedJson) (what string) {
 	defer func() {
 		if r := recover(); r != nil {
@@ -140,6 +145,28 @@ func traverseAll(pj *simdjson.ParsedJson) (what string) {
 				obj.FindKey("a", nil)
 				obj.FindPath(nil, "a", "k")
 				obj.ForEach(func(key []byte, i simdjson.Iter) {}, map[string]struct{}{"a": {}})
+				// Object.Parse into a long-lived Elements, then Lookup of the names the previous
+				// objects had (a stale index must not lead outside the element list)
+				if shallow && (containers <= 48 || len(pj.Tape) <= 4096) {
+					if obj2, err2 := it.Object(nil); err2 == nil {
+						if els, perr := obj2.Parse(travElements); perr == nil {
+							travElements = els
+							for _, k := range travNames {
+								if el := els.Lookup(k); el != nil {
+									el.Iter.Type()
+								}
+							}
+							for i := range els.Elements {
+								if len(travNames) < 64 && len(els.Elements[i].Name) < 32 {
+									travNames = append(travNames, els.Elements[i].Name)
+								}
+							}
+							if len(travNames) >= 64 {
+								travNames = travNames[32:]
+							}
+						}
+					}
+				}
 			}
 		}
 		if t == simdjson.TagArrayStart {
